@@ -228,7 +228,7 @@ theorem push_bl : ∀ (x : SVal), noRaw x = true → ∀ (b : B) (path : String)
           · have hall : ∀ s, (interpDictStr ext v s).isOk = false := fun s => by
               obtain ⟨e, he⟩ := interpDictStr_refused ext s hsv hr
               rw [he]; rfl
-            simp only [interpScalar, scalarToString]
+            simp only [interpScalar_eq_old, normErr_isOk, interpScalarOld, scalarToString]
             exact hall _
         exact Bl.bind (NoCtx.bl _) fun _ _ => Bl.bind (NoCtx.bl _) fun _ _ =>
           Bl.bind (pushByteElems_bl ext large hc hfail bs el _ hgel hael) fun _ _ => Bl.of_ok _
@@ -574,11 +574,11 @@ theorem pushStructEntries_bl : ∀ (es : SEntries), noRawe es = true → Entries
     have hraw' : (noRaw kx = true ∧ noRaw x = true) ∧ noRawe rest = true := by simpa [noRawe] using hraw
     simp only [vsizee] at hcap
     rw [pushStructEntries, bind_assoc]
-    refine Blo.bind ⟨NoCtx.bl _, fun msg h => hkeys (by simp [keysAreStrings, h, bind, Except.bind, R.isOk])⟩
+    refine Blo.bind ⟨NoCtx.bl _, fun msg h => hkeys (by simp [keysAreStrings, specKey_eq, normErr_ok, normErr_error, h, bind, Except.bind, R.isOk])⟩
       fun key hkey => ?_
     have hkeys' : (keysAreStrings rest).isOk = false → path ∈ S := by
       intro h; apply hkeys
-      simpa [keysAreStrings, hkey, bind, Except.bind] using h
+      simpa [keysAreStrings, specKey_eq, normErr_ok, normErr_error, hkey, bind, Except.bind] using h
     have hek : entryKeys (.cons kx x rest) = key :: entryKeys rest := by simp [entryKeys, hkey]
     split
     · rename_i hnone
